@@ -596,8 +596,41 @@ def check(ctx):
                             prev_ok = True
                 if prev_ok:
                     takes.append(m)
+        # ... or through a method of the new configuration that is handed the old one: <created>.<take>(<previous>)
+        deep = []
+        for m in gsv.nodes:
+            if m.kind != "call" or not isinstance(m.ast.func, ast.Attribute) or not is_created(m.ast.func.value, m) or not m.ast.args:
+                continue
+            a0 = m.ast.args[0]
+            from_data = any(k == "expr" and isinstance(pl, ast.AST) and any(isinstance(y, ast.Attribute) and y.attr == "_data" for y in ast.walk(pl))
+                            for k, pl in (value_sources(sv, a0, m) if isinstance(a0, ast.Name) else [("expr", a0)]))
+            if not from_data:
+                continue
+            for t in an.targets(sv, m):
+                f2 = getattr(t, "fn", None)
+                if t.kind != "fn" or f2 is None or f2.cls is None or not f2.cls.is_subclass_of(Config) or len(f2.positional_params) < 2:
+                    continue
+                pp = f2.positional_params[1]
+                copies = any(isinstance(x, ast.Assign) and any(isinstance(tg, ast.Attribute) and tg.attr.endswith("__keyfile") and isinstance(tg.value, ast.Name)
+                                                               and tg.value.id == f2.self_name for tg in x.targets)
+                             and isinstance(x.value, ast.Attribute) and x.value.attr.endswith("__keyfile") and isinstance(x.value.value, ast.Name)
+                             and x.value.value.id == pp for x in ast.walk(f2.node))
+                if copies:
+                    takes.append(m)
+                    # the nested configurations of the old one hand theirs on as well: the method visits previous._data and calls
+                    # itself for the configurations it finds there
+                    recurses = any(isinstance(x, ast.Call) and isinstance(x.func, ast.Attribute) and x.func.attr == f2.name for x in ast.walk(f2.node)) \
+                        and any(isinstance(x, ast.Attribute) and x.attr == "_data" and isinstance(x.value, ast.Name) and x.value.id == pp for x in ast.walk(f2.node))
+                    deep.append(recurses)
         before = bool(takes) and all(any(gsv.path(t, lambda x, l=l: x is l, may_raise=lambda x: False, from_successors=True) for t in takes) for l in loads_)
         ctx.ob("keyfile.survives-replacement", sv, n.ast, before and bool(loads_),
                "the new sub-configuration takes over the key file named by the one it replaces before it loads (and decrypts) the nested map" if before and loads_ else
                "a nested map is loaded into a brand-new sub-configuration that forgets the key file its predecessor named: secrets written "
                "with the sub-configuration's own key file are decrypted with an ancestor's key (load fails or yields garbage)", node=n)
+        okdeep = bool(deep) and all(deep)
+        ctx.ob("keyfile.survives-replacement.deep", sv, n.ast, okdeep,
+               "key files named further down (cfg.a.b._key_filename) are handed on level by level: the take-over visits the nested "
+               "configurations of the one being replaced" if okdeep else
+               "only the key file of the sub-configuration that is replaced directly is carried over: one named two levels down "
+               "(cfg.a.b._key_filename = ...) is lost when a document is loaded -- the new `a` starts with a fresh `b`, whose replacement "
+               "then has nothing to take over; a.b's secrets are decrypted with the ancestor's key", node=n)
